@@ -6,7 +6,7 @@ prop("C07", pkg="c07", vlimit_gb=16, fuzz=[("FuzzProtoDecode", 90)],
           "strings (3 free, 1 after a valid prefix); and, at up to 40 field boundaries (top level and inside embedded messages and map entries) x wire types 0, 1, 2, 5, the "
           "insertion of one or two well-formed fields whose numbers the message level does not declare (enclosing lengths recomputed). A second sub-check feeds rapid-generated "
           "byte strings (0..64 bytes) to generated target types. Thorough tier only: a native Go fuzzing campaign FuzzProtoDecode (90 s, 16 workers, coverage-guided, not "
-          "seed-reproducible - the saved input is the reproducible unit) over (bytes <= 4 KiB, selector of 27 static target types: all scalar kinds, zigzag/fixed tags and boundary "
+          "seed-reproducible - the saved input is the reproducible unit) over (bytes <= 4 KiB, selector of 29 static target types: all scalar kinds, zigzag/fixed tags and boundary "
           "field numbers, repeated fields, maps, nested / pointer-to messages, proto2-style optional scalars, byte arrays, Message / custom implementers as fields, behind pointers, "
           "repeated and as map values, recursive corpus types, top-level implementers and scalars, an inlined pointer chain, implementers / corpus structs behind 1..3 pointers at top level and as fields), seeded with valid encodings, truncations and hostile "
           "constants (10/11-byte varints, lengths 2^31 / 2^63, field numbers 0 / 2^29, wire types 3/4/6/7); its oracle is the same checkCase on the raw bytes plus up to six "
